@@ -20,7 +20,8 @@ RULE = ('generated note extents (0..40 notes; name sizes 0..21 and descriptor si
 ASSUMPTIONS = [
     'type names are expected from the table selected by e_type (core vs other) whatever the owner; '
     'descriptor decoding is expected only for owner GNU (non-core types) and owner CORE (core types)',
-    'x86/aarch64 property values are 4 bytes (the psABI size); other sizes are not generated',
+    'the named x86/aarch64 bit-mask properties are 4 bytes (the psABI size); processor-range properties of other types carry 8-16 '
+    'bytes, expected back in full',
     'alignment slack after the last note is < 12 bytes (a longer run of zeros is indistinguishable '
     'from a header-only note)',
 ]
@@ -47,7 +48,11 @@ def digest(note):
     if isinstance(desc, (bytes, str)):
         d['n_desc'] = desc
     elif isinstance(desc, list):
-        d['n_desc'] = [(p['pr_type'], p['pr_datasz'], p['pr_data']) for p in desc]
+        # a property type outside my own table is compared by number, whether or not the library has a name for it
+        from elftools.elf.enums import ENUM_NOTE_GNU_PROPERTY_TYPE as _PT
+        known = set(PRT.values())
+        d['n_desc'] = [(p['pr_type'] if p['pr_type'] in known or not isinstance(p['pr_type'], str) else _PT.get(p['pr_type'], p['pr_type']),
+                        p['pr_datasz'], p['pr_data']) for p in desc]
     elif 'abi_os' in desc:
         d['n_desc'] = ('abi', desc['abi_os'], desc['abi_major'], desc['abi_minor'], desc['abi_tiny'])
     elif 'pr_state' in desc:
